@@ -8,7 +8,7 @@ from props._b_common import Judge, to_np, cmp, absdense, pick_dd, count_formats
 RULE = ("cases from one PRNG(seed): kind in cat|flip|transpose|cumsum|repeat|pad|ttm|meshgrid|mask|reduce|create; tensors are WFstd "
         "hybrids (per mode TT|CP x factor none|narrow|square|wide, ranks 1..3), 1..4 modes of size 1..4, int stream (exact) or "
         "Gaussian stream; 15% of the cases under a float32 default dtype (operands stay float64). cat: 2-3 operands of independent "
-        "formats, every mode, negative mode numbers, varargs and list call forms; flip/cumsum: int | list | negative | None; "
+        "formats (20%: operands derived from ONE tensor — its flip / cumsum / negation / itself along any mode, or two slices of it along another mode — so that they share cores bitwise), every mode, negative mode numbers, varargs and list call forms; flip/cumsum: int | list | negative | None; "
         "repeat: 1..3 repetitions, 0..2 trailing new modes; pad: target int|list, dim None|int|list|negative, fill 0 or a constant; "
         "ttm: 1..N distinct modes, vector or matrix factors, transpose flag, dim None|int|list|negative, bare factor or list; "
         "meshgrid: ints and/or torch vectors, list and varargs call forms; mask: mask tensor in any format, same shape or smaller "
@@ -75,7 +75,17 @@ def gen_case(rng, kind):
             sh = list(shape); sh[d] = rng.randint(1, 3)
             ts.append(gen_tensor(rng, sh, stream=stream).to_json())
         c.update({"ts": ts, "d": d, "neg": rng.random() < 0.25, "form": rng.choice(["varargs", "list"])})
-        if rng.random() < 0.15:
+        if rng.random() < 0.2:
+            # operands DERIVED from the first one (its flip / cumulative sum / negation / itself / two slices along another mode): they share
+            # cores (bitwise) and differ in one core or one Tucker factor only
+            ts[:] = ts[:1]
+            sh0 = PT.from_json(ts[0]).shape
+            c["derive"] = [[rng.choice(["flip", "flip", "cumsum", "neg", "self"]), rng.randrange(N)] for _ in range(rng.choice([1, 1, 2]))]
+            others = [k for k in range(N) if k != d and sh0[k] >= 2]
+            if others and rng.random() < 0.3:
+                k = rng.choice(others); cut = rng.randint(1, sh0[k] - 1)
+                c["derive"] = [["slices", k, cut]]
+        elif rng.random() < 0.15:
             # operands of different precision: the first one float32 (small integers: exact), the others full-mantissa float64
             sh0 = list(shape); sh0[d] = rng.randint(1, 3)
             ts[0] = gen_tensor(rng, sh0, stream="int").to_json()
@@ -299,11 +309,41 @@ def _to_f32(t):
     return tn.Tensor([c.float() for c in t.cores], Us=[None if U is None else U.float() for U in t.Us])
 
 
+def _derive(x, how, lib):
+    """the operand derived from x (a tn.Tensor if lib else a dense array)"""
+    op, k = how[0], how[1]
+    if op == "flip":
+        return tn.flip(x, k) if lib else np.flip(x, axis=k)
+    if op == "cumsum":
+        return tn.cumsum(x, k) if lib else np.cumsum(x, axis=k)
+    if op == "neg":
+        return -x
+    return x
+
+
 def run_cat(ctx, case, J):
     ts = [PT.from_json(t) for t in case["ts"]]
     d, N = case["d"], ts[0].N
     arg = d - N if case["neg"] else d
-    exp = np.concatenate([t.dense() for t in ts], axis=d)
+    der = case.get("derive")
+    if der:
+        x0 = ts[0].dense()
+        if der[0][0] == "slices":
+            k, cut = der[0][1], der[0][2]
+            ix = lambda a, b: tuple([slice(None)] * k + [slice(a, b)])
+            parts = [x0[ix(0, cut)], x0[ix(cut, None)]]
+            if parts[0].shape[k] != parts[1].shape[k]:          # equal extents along k are needed to put the two blocks side by side
+                m = min(parts[0].shape[k], parts[1].shape[k]); parts = [x0[ix(0, m)], x0[ix(cut, cut + m)]]
+                der = [["slices", k, cut, m]]
+            else:
+                der = [["slices", k, cut, parts[0].shape[k]]]
+            dense_ops = parts
+        else:
+            dense_ops = [x0] + [_derive(x0, h, False) for h in der]
+        exp = np.concatenate(dense_ops, axis=d)
+        ctx.count("cat:derived operands:" + der[0][0])
+    else:
+        exp = np.concatenate([t.dense() for t in ts], axis=d)
     ctx.case(("cat", tuple(t.sig() for t in ts), arg, case["form"]), any(t.nontrivial() for t in ts),
              {"op": "cat", "operands": [t.describe() for t in ts], "dim": arg, "call": case["form"]})
     count_formats(ctx, *ts)
@@ -312,6 +352,12 @@ def run_cat(ctx, case, J):
 
     def thunk():
         tt = [t.to_tn() for t in ts]
+        if der and der[0][0] == "slices":
+            k, cut, m = der[0][1], der[0][2], der[0][3]
+            ix = lambda a, b: tuple([slice(None)] * k + [slice(a, b)])
+            tt = [tt[0][ix(0, m)], tt[0][ix(cut, cut + m)]]
+        elif der:
+            tt = [tt[0]] + [_derive(tt[0], h, True) for h in der]
         if case.get("f32_first"):
             tt[0] = _to_f32(tt[0])
         return tn.cat(*tt, dim=arg) if case["form"] == "varargs" else tn.cat(tt, dim=arg)
@@ -320,7 +366,7 @@ def run_cat(ctx, case, J):
 
     kd = set(t.kinds()[d] for t in ts)
     feats = [("1 mode, CP core or Tucker factor", _special1(*ts)), ("1 mode", N == 1), ("negative dim", case["neg"]),
-             ("operands of different format at the concatenated mode", len(kd) > 1)]
+             ("operands of different format at the concatenated mode", len(kd) > 1), ("operands derived from one tensor", bool(der))]
     J.check("cat", "cat(%s, dim=%s) [%s]" % (", ".join(str(list(t.shape)) for t in ts), arg, case["form"]), thunk, tensor_verify(exp, 1e-9, floor), feats)
 
 
